@@ -203,6 +203,22 @@ def core_lock_observations(ctx):
     log(f"[T] {len(hs)} writer histories with re-opens judged by CoreTrace, {n} accepted")
 
 
+def intruder_during_wait(ctx):
+    """while the user thread is inside wait_merging_threads with a (gate-parked) merge still running,
+    another thread tries to create a writer through a second Index instance: the lock must hold"""
+    import tracecheck
+    from props import c04
+    gp = ctx.path("intruder.ndjson")
+    vlib.run_bin("merge_driver", ["gated", "--seed", ctx.seed + 77, "--runs", 12 if ctx.quick else 120, "--out", gp], timeout=900)
+    ev = vlib.read_ndjson(gp)
+    runs = [r for r in c04.prep(ev) if any(e.get("ev") == "intruder_create" for e in r)]
+    att = sum(1 for r in runs for e in r if e["ev"] == "intruder_create")
+    n = tracecheck.validate_runs(ctx, runs, "intruder", "MergeTrace", "MergeTrace.cfg", key=lambda r: json.dumps(r[0].get("tag")), timeout=300)
+    ctx.cov["traces_validated_against_impl"] += n
+    ctx.cov["intruder_during_wait_merging_threads"] = {"runs": len(runs), "creation_attempts": att, "accepted": n}
+    log(f"[R] writer creation attempted during wait_merging_threads (merge parked): {att} attempts in {len(runs)} runs, {n} accepted")
+
+
 def binding_selftest(ctx, runs):
     base = next((r for r in runs if r[0].get("dir") == "sim" and any(e["ev"] == "race" and e["res"] == ["LockBusy"] for e in r) and
                  any(e["ev"] == "rollback" for e in r)), None)
@@ -279,6 +295,7 @@ def run(ctx):
     ctx.sample({"kind": "TLC-generated lifecycle", "ops": cases[len(fixed_tour())]})
     r = next((r for r in runs if r[0].get("dir") == "mmap" and nontrivial(r)), runs[0])
     ctx.sample({"kind": "recorded run on MmapDirectory (flock)", "events": [{k: v for k, v in e.items() if k not in ("probe",)} for e in r[:10]]})
+    intruder_during_wait(ctx)
 
 
 def replay(ctx, path):
